@@ -12,6 +12,7 @@ CONSTANTS
   MaxDetach = 0
   MaxEnv = 1
   NPS = 3
+  MaxDbf = 0
   MaxFail = 0
 INVARIANTS AckedExclusive AckedOnDisk OneWriter GcAlone
 VIEW MCView
